@@ -281,7 +281,9 @@ def afterPoll (eof : Bool) (st : St) : Step :=
     else .emit (.data (st.decoded.take len)) { st with decoded := st.decoded.drop len }
 
 /-- After the inner body has ended (`inner_done`): the loop only works on what is buffered.
-Fuel: every `emit`/`again` here consumes buffered bytes or the stored trailers. -/
+Fuel: every `emit`/`again` here consumes buffered bytes or the stored trailers; that the `0` case
+is never reached with the fuel `run` passes is `WebClientLemmas.drain_drains` / `run_runs`
+(Lemmas/WebClientFuel: `run` computes the fuel-free relation `Runs`). -/
 def drain : Nat → St → List Out
   | 0, _ => [.err]
   | f + 1, st =>
